@@ -1,16 +1,19 @@
 #!/usr/bin/env python3
 """Confirm a seeded change delivered in /tmp/wt-<name>/_seed and run registered checks against it.
-usage: seedcheck.py <name> <property> [<check ids to run> ...] [--tier quick|thorough] [--skip-verify]"""
+usage: seedcheck.py <name> <property> [<check ids to run> ...] [--tier quick|thorough] [--skip-verify] [--wt <worktree>]"""
 import json, os, shutil, subprocess, sys, time
 name, prop = sys.argv[1], sys.argv[2]
 args = sys.argv[3:]
 tier = "quick"
 if "--tier" in args:
     tier = args[args.index("--tier") + 1]; del args[args.index("--tier"):args.index("--tier") + 2]
+wt_override = None
+if "--wt" in args:
+    wt_override = args[args.index("--wt") + 1]; del args[args.index("--wt"):args.index("--wt") + 2]
 skip = "--skip-verify" in args
 args = [a for a in args if a != "--skip-verify"]
 checks = args or [prop]
-wt = "/tmp/wt-" + name
+wt = wt_override or ("/tmp/wt-" + name)
 seed = os.path.join(wt, "_seed")
 if not os.path.isdir(seed):
     # the scratch worktree is gone: re-run the kept patch
